@@ -421,7 +421,7 @@ func runC11(c *Ctx) {
 			}
 		}
 		r.Add(core.Obligation{Rule: "ack", Key: "ack selecting accepts only the offered transaction or the current lease", Func: core.FuncName(hr), Pos: c.P.Pos(hr.Pos()), Status: st,
-			Basis: fmt.Sprintf("truth table of the refusal condition over %d consistent valuations of 7 atoms", n), Detail: why})
+			Basis: fmt.Sprintf("truth table of the refusal condition over %d consistent valuations of 8 atoms", n), Detail: why})
 	}
 	// ---- free ----
 	if fn := c.P.Method(dhcpRel, "Handler", "handleDecline"); fn != nil {
@@ -638,7 +638,7 @@ func runC12(c *Ctx) {
 		})
 	}
 	// never ACK what cannot be honoured: every entry into the acknowledgement section has an offer or a lease
-	r.Rule("ack", "the acknowledgement section is entered only with an outstanding offer or lease", 4)
+	r.Rule("ack", "the acknowledgement section is entered only with an outstanding offer or lease", 9)
 	if hr := c.P.Method(dhcpRel, "Handler", "handleRequest"); hr != nil {
 		join := ackJoin(hr)
 		if join == nil {
@@ -657,6 +657,21 @@ func runC12(c *Ctx) {
 				}
 				add("ack", fmt.Sprintf("ack section entry %d requires an offer or lease (else NAK or silence)", k+1), hr, last, okState, "entered under a test establishing State != Free",
 					"a request that cannot be honoured (nothing offered, nothing leased) reaches the ACK: "+strings.Join(txt, " && "))
+				// an expired lease cannot be honoured either: an entry that relies on State == Allocated has tested DHCPExpiry
+				// (the selecting arm, which also admits offers, is decided by the truth table below)
+				allocated, fresh := false, false
+				for _, t := range txt {
+					if t == "(LEASE.State==2)" {
+						allocated = true
+					}
+					if t == "!(time.Time).Before(LEASE.DHCPExpiry,time.Now())" {
+						fresh = true
+					}
+				}
+				if allocated {
+					add("ack", fmt.Sprintf("ack section entry %d acknowledges a lease only if it has not expired", k+1), hr, last, fresh, "entered under !lease.DHCPExpiry.Before(time.Now())",
+						"an allocated lease is acknowledged without a test of its expiry (until the next MinuteTicker an expired lease is still Allocated): "+strings.Join(txt, " && "))
+				}
 			}
 		}
 	}
@@ -665,7 +680,7 @@ func runC12(c *Ctx) {
 		if !ok && n == 0 {
 			r.Add(core.Obligation{Rule: "ack", Key: "ack selecting accepts only the offered transaction or the current lease", Func: core.FuncName(hr), Pos: c.P.Pos(hr.Pos()), Status: core.Undecided, Detail: why})
 		} else {
-			add("ack", "ack selecting accepts only the offered transaction or the current lease", hr, nil, ok, fmt.Sprintf("truth table of the refusal condition over %d consistent valuations of 7 atoms", n), why)
+			add("ack", "ack selecting accepts only the offered transaction or the current lease", hr, nil, ok, fmt.Sprintf("truth table of the refusal condition over %d consistent valuations of 8 atoms", n), why)
 		}
 	}
 	// a lease restored from the file is attached to the netfilter subnet only if its address lies inside that subnet
@@ -771,6 +786,7 @@ func selectingAcceptTable(hr *ssa.Function) (ok bool, why string, n int) {
 		{"xid matches", "bytes.Equal(LEASE.XID,(packet.DHCP4).XId(arg1))"},
 		{"offered!=requested", "(LEASE.IPOffer!=φ)"},
 		{"leased!=requested", "(LEASE.Addr.IP!=φ)"},
+		{"lease expired", "(time.Time).Before(LEASE.DHCPExpiry,time.Now())"},
 	}
 	idx := map[string]int{}
 	for i, a := range atoms {
@@ -866,6 +882,8 @@ func selectingAcceptTable(hr *ssa.Function) (ok bool, why string, n int) {
 				bad = "the address requested is not the one offered"
 			case val(2) && val(6):
 				bad = "the address requested is not the client's lease"
+			case val(2) && val(7):
+				bad = "the client's lease has expired"
 			}
 			if bad != "" {
 				var desc []string
